@@ -7,6 +7,7 @@
 //	                                              impl -> spec: execute operations of the wide types on
 //	                                              spec-defined + seeded random operands, log one event per
 //	                                              distinct observation (judged by spec/num/NumJudge.tla)
+//	num one <type> <op> <a> <b> <out.ndjson>      replay of one case (decimal operands)
 //	num meter <rows.ndjson> <out.ndjson>          C32: materialise operand descriptors, run the real operations
 //	                                              with a recording memory gauge (judged by spec/num/BigMeter.tla)
 //
@@ -594,10 +595,11 @@ func cmdSema(out string) {
 // ---------------------------------------------------------------- table (8-bit, exhaustive)
 
 type Row struct {
-	T  string `json:"t"`
-	Op string `json:"op"`
-	A  int    `json:"a"`
-	V  []int  `json:"v"`
+	T   string `json:"t"`
+	Op  string `json:"op"`
+	A   int    `json:"a"`
+	V   []int  `json:"v"`
+	Ctl bool   `json:"ctl,omitempty"` // negative-control row injected by the check
 }
 
 const (
@@ -630,6 +632,7 @@ type Mismatch struct {
 	Other  string `json:"other,omitempty"`
 	Via    string `json:"via"`
 	Expr   string `json:"expr,omitempty"`
+	Ctl    bool   `json:"ctl,omitempty"`
 }
 
 func cmdTable(rowsPath, outPath string) {
@@ -701,7 +704,7 @@ func cmdTable(rowsPath, outPath string) {
 			}
 			got, other := codeOf(direct(wk.inter, t, r.Op, a, b))
 			if got != r.V[k] || other != "" {
-				ms = append(ms, Mismatch{r.T, r.Op, r.A, int(b.Int64()), r.V[k], got, other, "direct", exprs[k]})
+				ms = append(ms, Mismatch{r.T, r.Op, r.A, int(b.Int64()), r.V[k], got, other, "direct", exprs[k], false})
 			}
 		}
 		s0 := wk.scripts
@@ -714,11 +717,12 @@ func cmdTable(rowsPath, outPath string) {
 			for k := 0; k < n; k++ {
 				got, other := codeOf(obs[k])
 				if got != r.V[k] || other != "" {
-					ms = append(ms, Mismatch{r.T, r.Op, r.A, int(bs[k].Int64()), r.V[k], got, other, via, exprs[k]})
+					ms = append(ms, Mismatch{r.T, r.Op, r.A, int(bs[k].Int64()), r.V[k], got, other, via, exprs[k], false})
 				}
 			}
 		}
 		for _, m := range ms {
+			m.Ctl = r.Ctl
 			out.Write(m)
 		}
 		mu.Lock()
@@ -1267,6 +1271,49 @@ func toBigRaw(v interpreter.Value) *big.Int {
 	return nil
 }
 
+// cmdOne executes one case (decimal operands) the three ways and writes the observed events (replay).
+func cmdOne(tn, op, as, bs, outPath string) {
+	t := typeByName(tn)
+	a, ok1 := new(big.Int).SetString(as, 10)
+	b, ok2 := new(big.Int).SetString(bs, 10)
+	if !ok1 || !ok2 {
+		util.Die("bad operands %q %q", as, bs)
+	}
+	wk := newWorker()
+	ops := []string{op}
+	switch op {
+	case "divmod", "div", "mod":
+		op, ops = "divmod", []string{"div", "mod"}
+	case "satdiv":
+		if t.Scale == 0 {
+			ops = []string{"satdiv", "mod"}
+		}
+	}
+	out := util.NewOut(outPath)
+	defer out.Close()
+	k := 0
+	for _, via := range []string{"direct", "script-interpreter", "script-vm"} {
+		obs := make([]Obs, 2)
+		for i, o := range ops {
+			if via == "direct" {
+				obs[i] = direct(wk.inter, t, o, a, b)
+			} else {
+				r := make([]Obs, 1)
+				wk.runExprs(t, []string{expr(t, o, a, b)}, via == "script-vm", r)
+				obs[i] = r[0]
+			}
+		}
+		k++
+		ev := Event{K: k, T: t.Name, Op: op, A: toZ(a), B: toZ(b), Out: obs[0].Out, R: toZ(obs[0].R), Via: []string{via},
+			Expr: expr(t, ops[0], a, b), R2: toZ(zero)}
+		if len(ops) == 2 {
+			ev.Out2 = obs[1].Out
+			ev.R2 = toZ(obs[1].R)
+		}
+		out.Write(ev)
+	}
+}
+
 func main() {
 	if len(os.Args) < 2 {
 		util.Die("usage: num sema|table|trace|meter ...")
@@ -1284,6 +1331,8 @@ func main() {
 		cmdTrace(os.Args[2], os.Args[3], os.Args[4], n)
 	case "meter":
 		cmdMeter(os.Args[2], os.Args[3])
+	case "one":
+		cmdOne(os.Args[2], os.Args[3], os.Args[4], os.Args[5], os.Args[6])
 	default:
 		util.Die("unknown sub-command %s", os.Args[1])
 	}
